@@ -1,9 +1,15 @@
 #!/venv/bin/python
 """Run every seeded change in /verif/seeded against the check of its property (scratch worktree, FSIC_REPO) and
-write seeded/RESULTS.json + update each meta.json with what was run. usage: run_seeds.py [Cxx ...]"""
+write seeded/RESULTS.json + update each meta.json with what was run. usage: run_seeds.py [Cxx ...] [--only k1,k2]"""
 import json, os, re, subprocess, sys
 V = '/verif'
-only = set(sys.argv[1:])
+args = sys.argv[1:]
+suffix = None          # e.g.  --only 9,10  : only the seeds Cxx_9 and Cxx_10
+if '--only' in args:
+    i = args.index('--only')
+    suffix = set(args[i + 1].split(','))
+    args = args[:i] + args[i + 2:]
+only = set(args)
 res = json.load(open(f'{V}/seeded/RESULTS.json')) if os.path.exists(f'{V}/seeded/RESULTS.json') else {}
 for s in sorted(os.listdir(f'{V}/seeded')):
     d = f'{V}/seeded/{s}'
@@ -11,6 +17,8 @@ for s in sorted(os.listdir(f'{V}/seeded')):
         continue
     prop = s.split('_')[0]
     if only and prop not in only:
+        continue
+    if suffix and s.split('_')[1] not in suffix:
         continue
     if not os.path.exists(f'{V}/harness/props/{prop.lower()}.py'):
         continue
